@@ -195,6 +195,11 @@ def run(tier):
         for name, src in picks:
             follow.append(bp + src)
     add_compile_group("follow", follow)
+    # 6. errors located at tokens of every shape (string / interpolation tokens whose byte and character counts differ,
+    #    very long identifiers and numbers), and programs at and beyond each declaration limit
+    from ..gen import feat_lex, limits
+    add_compile_group("lex", feat_lex.sources(rng.fork("lex"), quick))
+    add_compile_group("limits", [src for _, src in limits.decl_limit_family() + limits.count_family() + limits.compound_after_constants()])
 
     ck.log("running %d cases (%d prefix scripts)" % (len(cases), len(scripts)))
     results = run_cases(cases)
